@@ -157,20 +157,28 @@ func TestVerifFilterCases(t *testing.T) {
 				}()
 				n := NewNode(vConfig(bitcoin.Hash32{1}, 50), newVStore(), vNoFetch{}, vNoFetch{})
 				for _, w := range c.Word {
-					var arg []byte
-					raw := fDataA
-					if w[len(w)-1] == 'B' {
-						raw = fDataB
-					}
-					if w == "SubRawA" || w == "UnsubRawA" || w == "SubRawB" {
-						arg = raw
-					} else {
-						arg = bitcoin.Hash160(raw)
+					hashA, hashB := bitcoin.Hash160(fDataA), bitcoin.Hash160(fDataB)
+					var args [][]byte
+					switch w {
+					case "SubRawA", "UnsubRawA":
+						args = [][]byte{fDataA}
+					case "SubHashA", "UnsubHashA":
+						args = [][]byte{hashA}
+					case "SubRawB":
+						args = [][]byte{fDataB}
+					case "UnsubHashB":
+						args = [][]byte{hashB}
+					case "SubAB":
+						args = [][]byte{fDataA, hashB}
+					case "UnsubAB":
+						args = [][]byte{hashA, fDataB}
+					case "UnsubBA":
+						args = [][]byte{fDataB, fDataA}
 					}
 					if w[:3] == "Sub" {
-						n.SubscribePushDatas(ctx, [][]byte{arg})
+						n.SubscribePushDatas(ctx, args)
 					} else {
-						n.UnsubscribePushDatas(ctx, [][]byte{arg})
+						n.UnsubscribePushDatas(ctx, args)
 					}
 				}
 				if c.Contracts {
